@@ -176,12 +176,19 @@ impl Property for C19 {
         if t.below(8) == 0 {
             c.gpr[4] = t.pick(&[STK_BASE, STK_BASE + STK_LEN as u64, STK_BASE + STK_LEN as u64 - 8, STK_BASE - 8, u64::MAX, u64::MAX - 7, 0, 8]);
         }
+        // now and then the step starts from a machine that has already run: unmatched returns,
+        // nested calls, repeated jumps (trace and call-stack bookkeeping are part of "any state")
+        if t.below(4) == 0 {
+            let n = 1 + t.below(6);
+            c.pre = (0..n).map(|_| t.pick(&['r', 'r', 'c', 'J', 'J', 'j'])).collect();
+        }
         c
     }
 
     fn render(&mut self, case: &NCase) -> Value {
         let mut v = self.eng().render(case);
         v["layout"] = serde_json::json!(case.layout);
+        v["prelude"] = serde_json::json!(case.pre);
         v
     }
 
@@ -203,7 +210,7 @@ impl Property for C19 {
             Emu::Err(_) => 1,
             Emu::Panic(_) => 2,
         };
-        h.u64(outcome_cls).u64(c.layout as u64).str(&c.code);
+        h.u64(outcome_cls).u64(c.layout as u64).str(&c.code).str(&c.pre);
         let mut out = CaseOut::pass(d.valid, h.finish());
         let cls = match (&d.emu, d.valid, in_floor) {
             (_, false, _) => "undecodable-or-truncated",
@@ -214,6 +221,12 @@ impl Property for C19 {
             (Emu::Panic(_), _, _) => "panic",
         };
         out = out.class(cls).class(format!("layer:{}", c.note.split(' ').next().unwrap_or("")));
+        if !c.pre.is_empty() {
+            out = out.class("after-prelude");
+            if c.pre.contains('r') {
+                out = out.class("after-unmatched-return");
+            }
+        }
         match &d.emu {
             Emu::Panic(p) => {
                 out.verdict = Verdict::Fail {
@@ -232,10 +245,10 @@ impl Property for C19 {
     }
 
     fn rule(&self) -> String {
-        "cases: four byte-level layers in equal parts — mutated valid encodings of every candidate form, uniform 1–15 bytes, [prefixes][REX][any opcode][ModRM][SIB][tail], and the same with the opcode drawn from the opcodes of supported mnemonics — × biased register states × layouts (all arenas / code only / code+rw, instruction at or across the end of the code area, RSP at edges); non-trivial = bytes decode to a valid instruction; distinct by (Code, operand kinds, prefixes, outcome class, layout, bytes)".into()
+        "cases: four byte-level layers in equal parts — mutated valid encodings of every candidate form, uniform 1–15 bytes, [prefixes][REX][any opcode][ModRM][SIB][tail], and the same with the opcode drawn from the opcodes of supported mnemonics — × biased register states × layouts (all arenas / code only / code+rw, instruction at or across the end of the code area, RSP at edges) × for 1/4 of the cases a prelude of 1–6 already executed ret/call/jmp steps (unmatched returns, nesting, collapsed jumps) after which registers and arenas are reset to the case's; non-trivial = bytes decode to a valid instruction; distinct by (Code, operand kinds, prefixes, outcome class, layout, bytes)".into()
     }
     fn required_classes(&self, _tier: Tier) -> Vec<String> {
-        vec!["implemented/Ok".into(), "implemented/Err".into(), "not-in-floor/Err".into(), "undecodable-or-truncated".into()]
+        vec!["implemented/Ok".into(), "implemented/Err".into(), "not-in-floor/Err".into(), "undecodable-or-truncated".into(), "after-unmatched-return".into()]
     }
     fn assumptions(&self) -> Vec<String> {
         vec![
@@ -258,7 +271,7 @@ pub fn tape_from_bytes(raw: &[u8]) -> Vec<u64> {
 }
 
 fn blank() -> NCase {
-    NCase { code: String::new(), rip: CODE_BASE + 0x100, gpr: [0; 16], rflags: 0, xmm: [[0; 2]; 16], fs: 0, gs: 0, mem_seed: 0, patches: vec![], note: String::new(), layout: 0, steps: 0 }
+    NCase { code: String::new(), rip: CODE_BASE + 0x100, gpr: [0; 16], rflags: 0, xmm: [[0; 2]; 16], fs: 0, gs: 0, mem_seed: 0, patches: vec![], note: String::new(), layout: 0, steps: 0, pre: String::new() }
 }
 
 fn mutate_any(t: &mut Tape, b: &[u8]) -> Vec<u8> {
